@@ -365,6 +365,80 @@ func c23(x *Ctx) {
 				"the error variable `"+carried+"` keeps its value from one batch element to the next: after one element fails, later elements that were accepted are reported with the earlier element's error status")
 		}
 	}
+	// ---- clause 4c: every response element is an object of its own ---------------------------------------------------
+	const r4c = "C23.response-element-fresh"
+	if b := x.P.Func("route", "Router", "batch"); b != nil && b.Blocks != nil {
+		n := 0
+		eng.Instrs(b, func(in ssa.Instruction) {
+			cl, ok := in.(*ssa.Call)
+			if !ok {
+				return
+			}
+			bi, ok := cl.Call.Value.(*ssa.Builtin)
+			if !ok || bi.Name() != "append" || len(cl.Call.Args) < 2 {
+				return
+			}
+			if !strings.Contains(cl.Call.Args[0].Type().String(), "BatchResponse") {
+				return
+			}
+			h := loopHeader(in)
+			if h == nil {
+				return
+			}
+			n++
+			c.Examined++
+			// the appended pointer(s): allocations made inside the loop body
+			fresh := true
+			eng.Derives(cl.Call.Args[1], func(v ssa.Value) bool {
+				if a, ok := v.(*ssa.Alloc); ok && strings.Contains(a.Type().String(), "BatchResponse") && !strings.HasPrefix(a.Type().String(), "*[") {
+					if !inNaturalLoop(a.Block(), h) {
+						fresh = false
+					}
+				}
+				return false
+			}, eng.FlowOpts{})
+			c.Decide(fresh, r4c, "batch/append", x.Pos(in), "the element appended for an event is allocated in that event's iteration",
+				"the response element appended for each event is one object allocated outside the loop: every entry of the response array points at it and shows the last event's status, so accepted events are reported as refused (or the reverse)")
+		})
+		if n == 0 {
+			c.Undecided(r4c, "batch/append", x.PosOf(b.Pos()), "cannot find where response elements are appended")
+		}
+	}
+
+	// ---- clause 4d: both admission paths report a full queue with the error the handlers map to 429 -------------------
+	const r4d = "C23.queue-full-error-agrees"
+	{
+		wb := ""
+		n := 0
+		for _, name := range []string{"addSpan", "addSpanFromPeer"} {
+			f := x.P.Func("collect", "CollectorWorker", name)
+			if f == nil || f.Blocks == nil {
+				continue
+			}
+			for _, rv := range returnedValues(f, 0) {
+				if k, ok := rv.(*ssa.Const); ok && k.IsNil() {
+					continue
+				}
+				n++
+				c.Examined++
+				g := ""
+				if u, ok := rv.(*ssa.UnOp); ok {
+					if gl, ok := u.X.(*ssa.Global); ok {
+						g = gl.Name()
+					}
+				}
+				if wb == "" {
+					wb = g
+				}
+				c.Decide(g == "ErrWouldBlock", r4d, name, x.PosOf(f.Pos()), "a full queue is reported as collect.ErrWouldBlock",
+					name+" reports a refusal with "+map[bool]string{true: "an error value that is not a package-level sentinel", false: "collect." + g}[g == ""]+" instead of collect.ErrWouldBlock: the HTTP handlers map only ErrWouldBlock to 429, so a full queue on this path is answered 400 (invalid) and the client does not retry")
+			}
+		}
+		if n == 0 {
+			c.Undecided(r4d, "collect.CollectorWorker", "collect/collector_worker.go", "cannot find the refusals of addSpan / addSpanFromPeer")
+		}
+	}
+
 	// ---- clause 4: batch status mapping ------------------------------------------------------------
 	const r4 = "C23.status-mapping"
 	if b := x.Fn(r4, "route", "Router", "batch"); b != nil {
